@@ -6,6 +6,7 @@ import (
 	"sync"
 
 	"github.com/virus-evolution/gofasta/pkg/fastaio"
+	"github.com/virus-evolution/gofasta/pkg/vhook"
 
 	biogosam "github.com/biogo/hts/sam"
 )
@@ -138,6 +139,7 @@ func blockToFastaRecord(ch_in chan samRecords, ch_out chan fastaio.FastaRecord, 
 		if err != nil {
 			ch_err <- err
 		}
+		vhook.Jitter("sam.blockToFastaRecord", group.idx)
 		ch_out <- getFastaRecord(rawseq, id, group.idx, trim, pad, trimstart, trimend)
 	}
 	return
